@@ -56,15 +56,23 @@ def run(ctx: Any, prog: Program) -> None:
                 out = re.sub(r'\b' + re.escape(x) + r'\b', '(' + expanded(x, d.lineno if x != name else d.lineno, depth + 1) + ')', out)
         return out
     guards_ = [i for i in walk_no_nested(up) if isinstance(i, ast.If) and i.body and isinstance(i.body[-1], ast.Raise)]
+    inverted5 = False
+    if not guards_:
+        # the same test the other way round: `if '../' not in path: return ...` / `else: raise`
+        inv_ = [i for i in walk_no_nested(up) if isinstance(i, ast.If) and i.orelse and isinstance(i.orelse[-1], ast.Raise) and isinstance(i.test, ast.Compare) and len(i.test.ops) == 1 and isinstance(i.test.ops[0], ast.NotIn)]
+        if len(inv_) == 1:
+            guards_, inverted5 = inv_, True
     if len(guards_) != 1:
         ctx.shape('C18.S5', False, pk, up, 'one raising escape test expected in unify_path', func='unify_path', text='unify_path escape test')
     else:
         g_ = guards_[0]
         t_ = g_.test
+        if inverted5:
+            t_ = ast.copy_location(ast.Compare(left=t_.left, ops=[ast.In()], comparators=t_.comparators), t_)
         subj = None
         # every name that unify_path returns has passed the escape test: no `return` stands in front of it (a fast path for names that
         # "are already clean" hands `../x` back untested)
-        early5 = [r for r in walk_no_nested(up) if isinstance(r, ast.Return) and r.lineno < g_.lineno]
+        early5 = [r for r in walk_no_nested(up) if isinstance(r, ast.Return) and r.lineno < g_.lineno]          # (returns inside the guarded statement itself come after its test)
         ctx.check('C18.S5', not early5, pk, early5[0] if early5 else g_, f'unify_path returns (`{U(early5[0])[:40] if early5 else ""}`, line {early5[0].lineno if early5 else 0}) before the escape test of line {g_.lineno}: names taking that '
                   'path are handed back without having been checked for `..` components, so a pack name can point outside the game root', func='unify_path', text='no return in front of the escape test')
         if isinstance(t_, ast.Compare) and len(t_.ops) == 1 and isinstance(t_.ops[0], ast.In):
